@@ -16,7 +16,8 @@ MCAddrs ==
     [] Inst = "v6"     -> {"x1", "x2", "z", "a"}
     [] Inst = "mapped" -> {"m", "a", "x1"}
     [] Inst = "b0"     -> {"a", "p", "x"}
-    [] Inst = "vsa"    -> {"a", "b", "p", "q", "x", "l"}
+    [] Inst = "vsa"    -> {"a", "b", "x", "l"}
+    [] Inst = "vsanp"  -> {"p", "q", "l", "a"}
 
 MCFamOf ==
   CASE Inst = "sub4"   -> [n \in MCAddrs |-> IF n = "x" THEN "v6" ELSE "v4"]
@@ -24,7 +25,7 @@ MCFamOf ==
     [] Inst = "v6"     -> [n \in MCAddrs |-> IF n = "a" THEN "v4" ELSE "v6"]       \* z = netip.Addr{} : Is4() false
     [] Inst = "mapped" -> [n \in MCAddrs |-> IF n = "a" THEN "v4" ELSE "v6"]       \* m = ::ffff:<a> : Is4() false
     [] Inst = "b0"     -> [n \in MCAddrs |-> IF n = "x" THEN "v6" ELSE "v4"]
-    [] Inst = "vsa"    -> [n \in MCAddrs |-> IF n \in {"x", "l"} THEN "v6" ELSE "v4"]
+    [] Inst \in {"vsa", "vsanp"} -> [n \in MCAddrs |-> IF n \in {"x", "l"} THEN "v6" ELSE "v4"]
 
 \* key functions are total over the address set; "-" marks addresses of the other family (never looked up)
 Key(f) == [n \in MCAddrs |-> IF n \in DOMAIN f THEN f[n] ELSE "-"]
@@ -34,9 +35,10 @@ MCNP ==
                           [mem |-> {"p"}, rate |-> 2, burst |-> 2],           \* narrow prefix
                           [mem |-> {"p", "q"}, rate |-> 1, burst |-> 3] >>    \* wide prefix containing the narrow one
     [] Inst = "b0"  -> << [mem |-> {"p"}, rate |-> 2, burst |-> 0] >>         \* RPS > 0, Burst 0: never allows
-    [] Inst = "vsa" -> << [mem |-> {"l"}, rate |-> 2, burst |-> 0],           \* v6 prefix, ConnCount 1 -> Burst 0
-                          [mem |-> {"p"}, rate |-> 2, burst |-> 1],           \* ConnCount 3 -> Burst 1
-                          [mem |-> {"p", "q"}, rate |-> 2, burst |-> 2] >>    \* ConnCount 4 -> Burst 2
+    [] Inst = "vsa" -> << [mem |-> {"l"}, rate |-> 2, burst |-> 0] >>         \* v6 prefix, ConnCount 1 -> Burst 0
+    [] Inst = "vsanp" -> << [mem |-> {"l"}, rate |-> 2, burst |-> 0],         \* v6 prefix, ConnCount 1 -> Burst 0
+                            [mem |-> {"p"}, rate |-> 2, burst |-> 1],         \* ConnCount 3 -> Burst 1
+                            [mem |-> {"p", "q"}, rate |-> 2, burst |-> 2] >>  \* ConnCount 4 -> Burst 2
     [] OTHER        -> << >>
 
 MCLevels ==
@@ -58,9 +60,11 @@ MCLevels ==
          [v4 |-> << [key |-> Key([a |-> "4n1", p |-> "4np"]), rate |-> 2, burst |-> 0] >>,
           v6 |-> << [key |-> Key([x |-> "6n1"]), rate |-> 1, burst |-> 1] >>]
     [] Inst = "vsa" ->   \* Burst = ConnCount / 2 (caps 2 and 5 for v4, 4 for v6), one token per tick (tick = 10 s)
-         [v4 |-> << [key |-> Key([a |-> "4n1", b |-> "4n2", p |-> "4np", q |-> "4nq"]), rate |-> 2, burst |-> 1],
-                    [key |-> Key([a |-> "4w1", b |-> "4w1", p |-> "4wp", q |-> "4wp"]), rate |-> 2, burst |-> 2] >>,
+         [v4 |-> << [key |-> Key([a |-> "4n1", b |-> "4n2"]), rate |-> 2, burst |-> 1],
+                    [key |-> Key([a |-> "4w1", b |-> "4w1"]), rate |-> 2, burst |-> 2] >>,
           v6 |-> << [key |-> Key([x |-> "6n1", l |-> "6nl"]), rate |-> 2, burst |-> 2] >>]
+    [] Inst = "vsanp" ->
+         [v4 |-> << [key |-> Key([a |-> "4n1", p |-> "4np", q |-> "4nq"]), rate |-> 2, burst |-> 1] >>, v6 |-> << >>]
 
 MCGlob ==
   CASE Inst = "sub4"   -> Lim(2, 3)
@@ -71,17 +75,20 @@ MCGlob ==
 MCGrace ==
   CASE Inst = "sub4" -> 1
     [] Inst = "v6"   -> 2
-    [] Inst = "vsa"  -> 6                    \* one minute = 6 ticks of 10 s
+    [] Inst \in {"vsa", "vsanp"} -> 6       \* one minute = 6 ticks of 10 s
     [] OTHER         -> 0
 
 \* caps the rcmgr harness configures so that newVerifySourceAddressRateLimiter derives instance "vsa"
-MCCaps == IF Inst = "vsa" THEN [np |-> <<1, 3, 4>>, v4 |-> <<2, 5>>, v6 |-> <<4>>] ELSE [np |-> <<>>, v4 |-> <<>>, v6 |-> <<>>]
+MCCaps == CASE Inst = "vsa"   -> [np |-> <<1>>, v4 |-> <<2, 5>>, v6 |-> <<4>>]
+            [] Inst = "vsanp" -> [np |-> <<1, 3, 4>>, v4 |-> <<3>>, v6 |-> <<>>]
+            [] OTHER          -> [np |-> <<>>, v4 |-> <<>>, v6 |-> <<>>]
 
 Conf == [inst |-> Inst, U |-> U, grace |-> MCGrace, glob |-> MCGlob, fam |-> MCFamOf, caps |-> MCCaps,
          np |-> [i \in 1..Len(MCNP) |-> [mem |-> MCNP[i].mem, rate |-> MCNP[i].rate, burst |-> MCNP[i].burst]],
          v4 |-> MCLevels.v4, v6 |-> MCLevels.v6, bids |-> AllBIds]
 
-St == s
+\* compact JSON projection of the state for the replay graph (the ghost `ideal` is determined by bk: ForgetSound)
+St == [g |-> s.g, np |-> s.np, bk |-> [b \in AllBIds |-> IF s.bk[b].pres THEN <<s.bk[b].def, s.bk[b].ttl>> ELSE <<>>]]
 EmitEdge == PrintT(<<"VFEDGE", ToJson([s |-> St, op |-> op', t |-> St'])>>)
 MCInit == Init /\ PrintT(<<"VFINIT", ToJson(St)>>) /\ PrintT(<<"VFCONF", ToJson(Conf)>>)
 =============================================================================
